@@ -28,3 +28,86 @@ package sqlcrud
 //@   callarg fmt.Sprintf@3 1 query.GoFunctionName
 //@   callarg fmt.Sprintf@3 2 signature
 //@   callarg fmt.Sprintf@3 4 argsSelect
+
+// ---------------------------------------------------------------- C05 (kernel)
+
+//@ func sqlColumnName
+//@   props C05
+//@   pure
+//@   requires fi.Field != nil
+//@   ensures result == strings.ToLower(fi.Field.Name())
+
+//@ pred isGuardCol(c sql.Column) bool = c.Field.Tag.Get("gomacro-sql-guard") != ""
+
+// position k of every list is built from the SAME non-guard column (alignment), placeholder k is $k+1, the
+// lists without the primary key skip exactly that column, and when the primary key is a regular column the
+// full lists have one more entry (so that $<columnsCount> is the next free placeholder of UPDATE ... WHERE id =)
+//@ func newColumnsCode
+//@   props C05
+//@   requires forall i int :: 0 <= i && i < len(ta.Columns) ==> ta.Columns[i].Field.Field != nil
+//@   ensures len(scanFields) == len(columnNames) && len(valueFields) == len(columnNames) && len(quotedColumnNames) == len(columnNames) && len(placeholders) == len(columnNames)
+//@   ensures forall k int :: 0 <= k && k < len(columnNames) ==> (exists i int :: 0 <= i && i < len(ta.Columns) && !isGuardCol(ta.Columns[i])
+//@       && columnNames[k] == sqlColumnName(ta.Columns[i].Field)
+//@       && scanFields[k] == fmt.Sprintf("&item.%s,", ta.Columns[i].Field.Field.Name())
+//@       && valueFields[k] == fmt.Sprintf("item.%s", ta.Columns[i].Field.Field.Name())
+//@       && quotedColumnNames[k] == fmt.Sprintf("%q,", sqlColumnName(ta.Columns[i].Field)))
+//@   ensures forall i int :: 0 <= i && i < len(ta.Columns) && !isGuardCol(ta.Columns[i]) ==> (exists k int :: 0 <= k && k < len(columnNames) && columnNames[k] == sqlColumnName(ta.Columns[i].Field))
+//@   ensures forall k int :: 0 <= k && k < len(placeholders) ==> placeholders[k] == fmt.Sprintf("$%d", k+1)
+//@   ensures len(valueFieldsNoPrimary) == len(columnNamesNoPrimary) && len(placeholdersNoPrimary) == len(columnNamesNoPrimary)
+//@   ensures forall k int :: 0 <= k && k < len(columnNamesNoPrimary) ==> placeholdersNoPrimary[k] == fmt.Sprintf("$%d", k+1) && (exists i int :: 0 <= i && i < len(ta.Columns) && !isGuardCol(ta.Columns[i]) && i != ta.Primary()
+//@       && columnNamesNoPrimary[k] == sqlColumnName(ta.Columns[i].Field) && valueFieldsNoPrimary[k] == fmt.Sprintf("item.%s", ta.Columns[i].Field.Field.Name()))
+//@   ensures ta.Primary() >= 0 && !isGuardCol(ta.Columns[ta.Primary()]) ==> len(columnNames) == len(columnNamesNoPrimary) + 1
+//@   ensures result.columnsCount == len(columnNames)
+//@   loop ta.Columns.1 index n
+//@   loop ta.Columns.1 invariant len(scanFields) == len(columnNames) && len(valueFields) == len(columnNames) && len(quotedColumnNames) == len(columnNames) && len(placeholders) == len(columnNames)
+//@   loop ta.Columns.1 invariant forall k int :: 0 <= k && k < len(columnNames) ==> (exists i int :: 0 <= i && i < n && !isGuardCol(ta.Columns[i])
+//@       && columnNames[k] == sqlColumnName(ta.Columns[i].Field)
+//@       && scanFields[k] == fmt.Sprintf("&item.%s,", ta.Columns[i].Field.Field.Name())
+//@       && valueFields[k] == fmt.Sprintf("item.%s", ta.Columns[i].Field.Field.Name())
+//@       && quotedColumnNames[k] == fmt.Sprintf("%q,", sqlColumnName(ta.Columns[i].Field)))
+//@   loop ta.Columns.1 invariant forall i int :: 0 <= i && i < n && !isGuardCol(ta.Columns[i]) ==> (exists k int :: 0 <= k && k < len(columnNames) && columnNames[k] == sqlColumnName(ta.Columns[i].Field))
+//@   loop ta.Columns.1 invariant forall k int :: 0 <= k && k < len(placeholders) ==> placeholders[k] == fmt.Sprintf("$%d", k+1)
+//@   loop ta.Columns.1 invariant len(valueFieldsNoPrimary) == len(columnNamesNoPrimary) && len(placeholdersNoPrimary) == len(columnNamesNoPrimary)
+//@   loop ta.Columns.1 invariant forall k int :: 0 <= k && k < len(columnNamesNoPrimary) ==> placeholdersNoPrimary[k] == fmt.Sprintf("$%d", k+1) && (exists i int :: 0 <= i && i < n && !isGuardCol(ta.Columns[i]) && i != primaryIndex
+//@       && columnNamesNoPrimary[k] == sqlColumnName(ta.Columns[i].Field) && valueFieldsNoPrimary[k] == fmt.Sprintf("item.%s", ta.Columns[i].Field.Field.Name()))
+//@   loop ta.Columns.1 invariant len(columnNames) == len(columnNamesNoPrimary) + ite(primaryIndex >= 0 && primaryIndex < n && !isGuardCol(ta.Columns[primaryIndex]), 1, 0)
+//@   loop ta.Columns.1 invariant (isnil(scanFields) || allocated(scanFields)) && (isnil(valueFields) || allocated(valueFields)) && (isnil(quotedColumnNames) || allocated(quotedColumnNames)) && (isnil(columnNames) || allocated(columnNames)) && (isnil(placeholders) || allocated(placeholders))
+//@   loop ta.Columns.1 invariant (isnil(valueFieldsNoPrimary) || allocated(valueFieldsNoPrimary)) && (isnil(columnNamesNoPrimary) || allocated(columnNamesNoPrimary)) && (isnil(placeholdersNoPrimary) || allocated(placeholdersNoPrimary))
+
+// the k-th comparison compares column k with placeholder $k+1
+//@ func columnsComparison
+//@   props C05
+//@   requires forall i int :: 0 <= i && i < len(cols) ==> cols[i].Field.Field != nil
+//@   ensures len(chunks) == len(cols) && (forall k int :: 0 <= k && k < len(cols) ==> chunks[k] == fmt.Sprintf("%s = $%d", cols[k].Field.Field.Name(), k+1))
+//@   loop cols.1 index n
+//@   loop cols.1 invariant len(chunks) == len(cols) && (forall k int :: 0 <= k && k < n ==> chunks[k] == fmt.Sprintf("%s = $%d", cols[k].Field.Field.Name(), k+1))
+
+//@ func columsFuncTitle
+//@   props C05
+//@   requires forall i int :: 0 <= i && i < len(cols) ==> cols[i].Field.Field != nil
+//@   ensures len(chunks) == len(cols) && (forall k int :: 0 <= k && k < len(cols) ==> chunks[k] == cols[k].Field.Field.Name())
+//@   loop cols.1 index n
+//@   loop cols.1 invariant len(chunks) == len(cols) && (forall k int :: 0 <= k && k < n ==> chunks[k] == cols[k].Field.Field.Name())
+
+// the k-th variable and the k-th declaration are the same column as the k-th comparison
+//@ func context.columsVarDecls
+//@   props C05
+//@   requires forall i int :: 0 <= i && i < len(cols) ==> cols[i].Field.Field != nil
+//@   ensures len(varNames) == len(cols) && len(varDecls) == len(cols)
+//@   ensures forall k int :: 0 <= k && k < len(cols) ==> varNames[k] == gen.ToLowerFirst(cols[k].Field.Field.Name()) && varDecls[k] == fmt.Sprintf("%s %s", gen.ToLowerFirst(cols[k].Field.Field.Name()), ctx.typeName(cols[k].Field.Field.Type()))
+//@   loop cols.1 index n
+//@   loop cols.1 invariant len(varNames) == len(cols) && len(varDecls) == len(cols)
+//@   loop cols.1 invariant forall k int :: 0 <= k && k < n ==> varNames[k] == gen.ToLowerFirst(cols[k].Field.Field.Name()) && varDecls[k] == fmt.Sprintf("%s %s", gen.ToLowerFirst(cols[k].Field.Field.Name()), ctx.typeName(cols[k].Field.Field.Type()))
+
+// link tables: the k-th comparison uses placeholder $k+1 (twice for nullable keys) and the k-th accessed
+// field is the same foreign key
+//@ func context.generateLinkTable
+//@   props C05
+//@   nosafety
+//@   modifies *
+//@   loop ta.ForeignKeys().1 index n
+//@   loop ta.ForeignKeys().1 coll fks
+//@   loop ta.ForeignKeys().1 invariant len(foreignKeyFields) == n && len(foreignKeyComps) == n && len(foreignKeyAccess) == n
+//@   loop ta.ForeignKeys().1 invariant forall k int :: 0 <= k && k < n ==> foreignKeyFields[k] == fks[k].F.Field.Name() && foreignKeyAccess[k] == fmt.Sprintf("item.%s", fks[k].F.Field.Name())
+//@   loop ta.ForeignKeys().1 invariant forall k int :: 0 <= k && k < n ==> foreignKeyComps[k] == ite(fks[k].IsNullable(), fmt.Sprintf("((%[1]s IS NULL AND $%[2]d IS NULL) OR %[1]s = $%[2]d)", fks[k].F.Field.Name(), k+1), fmt.Sprintf("%s = $%d", fks[k].F.Field.Name(), k+1))
+//@   loop ta.ForeignKeys().1 invariant (isnil(foreignKeyFields) || allocated(foreignKeyFields)) && (isnil(foreignKeyComps) || allocated(foreignKeyComps)) && (isnil(foreignKeyAccess) || allocated(foreignKeyAccess)) && (isnil(fks) || allocated(fks))
